@@ -179,7 +179,9 @@ func (p *Pool) Get() interface{} {
 	}
 	idx := n - 1 - c
 	it := p.items[idx]
-	copy(p.items[idx:], p.items[idx+1:])
+	for i := idx; i < n-1; i++ { // not copy(): see pipe.go
+		p.items[i] = p.items[i+1]
+	}
 	p.items[n-1] = poolItem{}
 	p.items = p.items[:n-1]
 	pPoolReuse.Hit()
